@@ -66,6 +66,10 @@ checks = {
    text="complete Cartesian enumeration of block size (1-8/9) x relevant subset x corruption/fault kind x position through the real BlockDownloader.HandleBlock with a recording processor/store: confirmation-stage calls occur only for the requested header with full count and matching merkle root and no earlier fault; then exactly coinbase, the relevant occurrences in block order with proofs that verify (also recomputed by an independent merkle implementation), the txid record last; Complete is nil iff all of it happened",
    note="HandleBlock driven directly with a pre-filled closed channel (sequential); interleavings are C16; the node-side framing leg is covered by the C14/C15 checks",
    tech="bounded-exhaustive input and fault-position enumeration on the implementation against a reference"),
+ "C05": dict(engine="schedmc", cat="model_checking", ref="DESIGN.md 4, 7 C05",
+   text="the real NodeManager.TriggerBlockSynchronize / runSynchronizeBlocks / synchronizeBlocks, the real BlockManager and BlockDownloader and the threads library, instrumented and run under the controlled scheduler on a real (native) headers.Repository, with a scripted block source and recording processor/store: chain length 1-3(4) x start height tip-2..tip+1 x processed sets (prefixes and a gap) x source failures (node drops, no node available twice, wrong block served) x events during synchronisation (extra trigger, new header + trigger, 1- and 2-deep reorganisation + trigger), every ordering at call granularity (preemption bound 0; bound 1 in the thorough tier). Oracles: no request below the start height, none for a block already recorded, processing ascending and at most once per block, every owed best-chain block processed at quiescence, no deadlock / endless polling",
+   note="the property quantifies over histories, configurations and fault sequences, not schedules, so the block source answers inside RequestBlock (no node/handler threads); interleavings of delivery/cancel/stop are C16's subject; virtual time",
+   tech="stateless model checking of the implementation under a hand-written cooperative scheduler: exhaustive enumeration of schedules at call granularity over an enumerated set of configurations / fault sequences"),
  "C06": dict(engine="schedmc", cat="model_checking", ref="DESIGN.md 4, 7 C06",
    text="the real TxManager (AddTxID, AddTx, GetTxRequests, Run) instrumented by source rewriting and run under a controlled scheduler: for every pair of peer scripts over {announce, deliver} of length <= 2 (and 3 peers / 2 transactions / retry polls after a virtual-clock advance past the request timeout), all interleavings up to preemption bound 2 (1 for the retry-poll scenarios) are executed; every execution's call/return history must be linearizable (porcupine) against a map model of 'request from exactly one announcer per timeout window, retry per announcer after the timeout, never after delivery', and the processor / saver must have seen each delivered transaction exactly once",
    note="interleavings at synchronisation operations (sequential consistency); preemption-bounded; virtual time; retry polls complete to bound 1 because one poll is ~520 scheduling points; the end-to-end inv->getdata->tx wire leg is exercised by the C13/C14 message-history checks, not here",
@@ -74,9 +78,9 @@ checks = {
    text="the real BlockDownloader and BlockManager (and the threads library) instrumented by source rewriting and run under a controlled scheduler. Layer 1: downloader.Run + a node actor following the BlockRequestor/Canceller contract (block of 0-2 transactions, wrong hash, processor error, short stream, no delivery) + every subset of {manager Cancel, peer Stop, shutdown interrupt}; layer 3: BlockManager.Run with 1-2 queued requests, concurrency 1-3, scripted nodes that deliver / deliver slowly / drop / stay silent / are unavailable, abort and interrupt at any time. All interleavings up to preemption bound 2 (manager scenarios with abort/interrupt: bound 0-1). Oracles: no deadlock (the scheduler knows exactly who waits on what), no unbounded polling (step horizon), Run returns, exactly one terminal signal per request, downloader list empty at quiescence, completion only after a recorded successful download, no double processing",
    note="layer 2 of the design (real BitcoinNode.RequestBlock/CancelBlockRequest/handleBlock under the scheduler) is replaced by the node-contract actor, whose 'registered but handler never started' case reproduces the real node's window; runs that end only through a virtual timeout are listed as outcomes (via-timeout), not alarmed",
    tech="stateless model checking of the implementation: exhaustive enumeration of thread schedules under a hand-written cooperative scheduler (iterative preemption bounding, happens-before state caching)"),
- "C20": dict(engine="peermc", cat="model_checking", ref="DESIGN.md 6, 7 C20",
-   text="BFS over all histories of Add/UpdateScore/UpdateTime/Save/Load/Clear (2-5 addresses incl. empty, 300-byte, non-ASCII, IPv6; deltas +-1,+-5) on the real StoragePeerRepository against a map model, all 36 Get(min,max) ranges and Count compared in every state; every prefix of every saved file reached is loaded; 17 structured arbitrary file contents (bad version, negative / huge counts and lengths, duplicates, garbage) are loaded in worker subprocesses under an address-space limit",
-   note="sequential callers in this check (the concurrent part is explored separately); last-seen times are wall-clock and only checked to lie inside the call window; atomic single-key storage",
+ "C20": dict(engine="peermc+schedmc", cat="model_checking", ref="DESIGN.md 6, 7 C20",
+   text="BFS over all histories of Add/UpdateScore/UpdateTime/Save/Load/Clear (2-5 addresses incl. empty, 300-byte, non-ASCII, IPv6; deltas +-1,+-5) on the real StoragePeerRepository against a map model, all 36 Get(min,max) ranges and Count compared in every state; every prefix of every saved file reached is loaded; 17 structured arbitrary file contents (bad version, negative / huge counts and lengths, duplicates, garbage) are loaded in worker subprocesses under an address-space limit; concurrent callers: 2-3 threads x <=3 operations on colliding addresses under the controlled scheduler (all interleavings to preemption bound 2), every history linearizable (porcupine) against the map model",
+   note="last-seen times are wall-clock and only checked to lie inside the call window; atomic single-key storage",
    tech="explicit-state model checking of the implementation (BFS over operation histories, model-state de-duplication) plus exhaustive file-prefix enumeration"),
 }
 
